@@ -1,4 +1,4 @@
-CONSTANTS MaxH = 3  AVals = {0,2,3}  MaxOps = 7
+CONSTANTS MaxH = 3  AVals = {0,4,6}  MaxOps = 7
 INIT Init
 NEXT Next
 CONSTRAINT Bound
